@@ -21,16 +21,19 @@ import (
 	"strings"
 )
 
+var opRepl []string
+
 type site struct {
-	file      string
-	line      int
-	cond      string
+	file       string
+	line       int
+	cond       string
 	start, end int // byte offsets of the condition
 }
 
 func main() {
 	repo := flag.String("repo", "/repo", "tree")
 	list := flag.Bool("list", false, "list sites")
+	ops := flag.Bool("ops", false, "comparison-strictness sites (< <-> <=, > <-> >=) instead of guard deletion")
 	apply := flag.Int("apply", -1, "apply mutation N")
 	flag.Parse()
 	var files []string
@@ -80,6 +83,42 @@ func main() {
 			return true
 		})
 	}
+	if *ops {
+		sites = nil
+		for _, f := range files {
+			fset := token.NewFileSet()
+			af, err := parser.ParseFile(fset, f, nil, 0)
+			if err != nil {
+				continue
+			}
+			rel, _ := filepath.Rel(*repo, f)
+			ast.Inspect(af, func(n ast.Node) bool {
+				be, ok := n.(*ast.BinaryExpr)
+				if !ok {
+					return true
+				}
+				var repl string
+				switch be.Op {
+				case token.LSS:
+					repl = "<="
+				case token.LEQ:
+					repl = "<"
+				case token.GTR:
+					repl = ">="
+				case token.GEQ:
+					repl = ">"
+				default:
+					return true
+				}
+				var buf bytes.Buffer
+				printer.Fprint(&buf, fset, be)
+				off := fset.Position(be.OpPos).Offset
+				sites = append(sites, site{rel, fset.Position(be.OpPos).Line, buf.String() + "  =>  " + repl, off, off + len(be.Op.String())})
+				opRepl = append(opRepl, repl)
+				return true
+			})
+		}
+	}
 	if *list {
 		for i, s := range sites {
 			fmt.Printf("%d\t%s:%d\t%s\n", i, s.file, s.line, strings.Join(strings.Fields(s.cond), " "))
@@ -91,7 +130,11 @@ func main() {
 		p := filepath.Join(*repo, s.file)
 		b, _ := os.ReadFile(p)
 		out := append([]byte{}, b[:s.start]...)
-		out = append(out, []byte("false")...)
+		if *ops {
+			out = append(out, []byte(opRepl[*apply])...)
+		} else {
+			out = append(out, []byte("false")...)
+		}
 		out = append(out, b[s.end:]...)
 		os.WriteFile(p, out, 0o644)
 		fmt.Printf("%s:%d\t%s\n", s.file, s.line, strings.Join(strings.Fields(s.cond), " "))
